@@ -2,7 +2,7 @@
 from sa import rules as RU
 from sa.awslib import in_bounds
 from sa.bounds import access_sites, addr_size
-from sa.cfg import dominators, ev_dominates
+from sa.cfg import Typestate, dominators, ev_dominates
 from sa.extract import library_units
 from sa.num import Num, Poly, Limit, State, entails, feasible
 from sa.rules import argstr, where
@@ -77,7 +77,14 @@ def tables(R, P):
             else:
                 seen.add(("fail", lo, hi))
     want = {(97, 102, 10 - 97), (65, 70, 10 - 65), (48, 57, -48)}
-    succ = {x for x in seen if x[0] != "fail"}
+    merged = []
+    for lo, hi, d in sorted(x for x in seen if x[0] != "fail"):
+        # one accepted character per path (a switch) or one range per path: the same mapping over adjacent characters
+        if merged and merged[-1][2] == d and lo <= merged[-1][1] + 1:
+            merged[-1] = (merged[-1][0], max(hi, merged[-1][1]), d)
+        else:
+            merged.append((lo, hi, d))
+    succ = set(merged)
     R.check(ok and succ == want, "TABLES", "hex-digit-reader", "%s()" % f.name, "accepts exactly a-f, A-F, 0-9 with the right values", "the hex digit reader's ranges/values are %s" % sorted(succ))
 
 
@@ -396,7 +403,17 @@ def dispatch(R, P):
     d = P.fn("aws_base64_decode")
     if d is not None:
         kc = d.calls("aws_common_private_base64_decode_sse41")
-        rz = [e for e in d.calls("aws_raise_error") if any("18446744073709551615" in d.show(d.d(c)) or "SIZE_MAX" in d.show(d.d(c)) for c, pol, b in RU.guards(d, e) if pol)]
+        def failed_kernel(e):
+            # reached exactly when the kernel's result equals SIZE_MAX (whichever way round the test is written)
+            for c, pol, b in RU.guards(d, e):
+                g = RU.cmp_norm(d, c, pol)
+                if g and g[2] is not None and g[1] == "==":
+                    for x, y in ((g[0], g[2]), (g[2], g[0])):
+                        o = RU.origin(d, x, e)
+                        if o is not None and kc and o is kc[0].node and ("18446744073709551615" in d.show(y) or "SIZE_MAX" in d.show(y)):
+                            return True
+            return False
+        rz = [e for e in d.calls("aws_raise_error") if failed_kernel(e)]
         R.check(len(kc) == 1 and len(rz) == 1 and d.show(RU.arg(d, rz[0].node, 0)) == "AWS_ERROR_INVALID_BASE64_STR", "DISPATCH", "aws_base64_decode:kernel-failure-mapped", where(d, rz[0]) if rz else d.name,
                 "the kernel's SIZE_MAX result raises AWS_ERROR_INVALID_BASE64_STR, like the portable path")
         portable = [e for e in d.calls("aws_raise_error") if e not in rz and d.show(RU.arg(d, e.node, 0)) not in ("AWS_ERROR_SHORT_BUFFER",)]
@@ -765,13 +782,34 @@ def chunk(R, P):
     d = P.fn("aws_decode_utf8")
     if R.require(d is not None, "aws_decode_utf8 not found"):
         u, fz = d.calls("aws_utf8_decoder_update"), d.calls("aws_utf8_decoder_finalize")
-        R.check(len(u) == 1 and len(fz) == 1 and ev_dominates(d, u[0], fz[0]) and argstr(d, u[0].node, 0) == argstr(d, fz[0].node, 0) == "decoder", "CHUNK", "decode_utf8:update-then-finalize", "%s()" % d.name,
-                "the one-shot validator is update followed by finalize on the same fresh decoder")
+        # every successful return comes after update on the local decoder and after finalize's verdict - finalize() having
+        # returned 0 on the same decoder, or its test (no codepoint pending: decoder.remaining == 0) made in place
+        good, nret = len(u) == 1 and argstr(d, u[0].node, 0) == "decoder", 0
+        for r in d.returns():
+            v = RU.uncast(d, r.node["a"][0]) if r.node.get("a") else None
+            if v is None or d.is_const(v) != 0:
+                continue
+            nret += 1
+            verdict = False
+            for c, pol, b in RU.guards(d, r):
+                cc, neg = RU.cond_call(d, c)
+                if cc is not None and any(cc is e.node for e in fz) and pol == neg and argstr(d, cc, 0) == "decoder":
+                    verdict = True
+                g = RU.cmp_norm(d, c, pol)
+                if g and g[2] is not None and g[1] == "==" and d.is_const(RU.uncast(d, g[2])) == 0:
+                    l = RU.uncast(d, g[0])
+                    if l is not None and l["k"] == "member" and l["f"] == "remaining" and l.get("rec") == "aws_utf8_decoder" and d.show(l["a"][0]) == "decoder":
+                        verdict = True
+            good = good and verdict and bool(u) and ev_dominates(d, u[0], r)
+        R.check(good and nret >= 1, "CHUNK", "decode_utf8:update-then-finalize", "%s()" % d.name,
+                "the one-shot validator is update followed by finalize's verdict on the same fresh decoder")
     z = P.fn("aws_utf8_decoder_finalize")
     if R.require(z is not None, "aws_utf8_decoder_finalize not found"):
         rs = z.calls("aws_utf8_decoder_reset")
         rd = z.field_accesses(rec="aws_utf8_decoder", field="remaining", modes=("r",))
-        R.check(len(rs) == 1 and len(rd) >= 1 and all(ev_dominates(z, x, rs[0]) for x in rd), "CHUNK", "finalize:verdict-then-reset", "%s()" % z.name, "finalize reads the pending count before resetting the decoder")
+        stale = [x for x in rd for r_ in rs if x in RU.reach_from(z, r_)]
+        always = Typestate(z, 0, lambda e, s_: 1 if any(e is r_ for r_ in rs) else s_).exit_states == {1}
+        R.check(len(rs) >= 1 and len(rd) >= 1 and not stale and always, "CHUNK", "finalize:verdict-then-reset", "%s()" % z.name, "finalize reads the pending count before resetting the decoder")
 
 
 def analyse(ctx, replace=None, only=None):
